@@ -4,6 +4,9 @@ package main
 import (
 	"bytes"
 	"fmt"
+	"io"
+
+	"github.com/gobwas/ws"
 
 	"verifmc/explore"
 	"verifmc/hs"
@@ -35,6 +38,17 @@ func main() {
 						if sig != "" {
 							return explore.Failf(sig, "%s\nrequest:\n%s", detail, data)
 						}
+						if c.String() == "default" {
+							// the package-level entry point on the default upgrader
+							var buf bytes.Buffer
+							hsk2, err2 := ws.Upgrade(struct {
+								io.Reader
+								io.Writer
+							}{bytes.NewReader(data), &buf})
+							if sig, detail := hs.JudgeServer(q, c, buf.Bytes(), hsk2, err2, "ws.Upgrade"); sig != "" {
+								return explore.Failf(sig, "%s\nrequest:\n%s", detail, data)
+							}
+						}
 						t.Outcome(detail)
 						return nil
 					})
@@ -62,6 +76,12 @@ func main() {
 						sig, detail := hs.JudgeServer(q, c, out, hsk, err, "HTTPUpgrader")
 						if sig != "" {
 							return explore.Failf(sig, "%s\nrequest:\n%s", detail, data)
+						}
+						if c.String() == "default" {
+							out2, hsk2, err2, _ := hs.RunUpgradeHTTP(data)
+							if sig, detail := hs.JudgeServer(q, c, out2, hsk2, err2, "ws.UpgradeHTTP"); sig != "" {
+								return explore.Failf(sig, "%s\nrequest:\n%s", detail, data)
+							}
 						}
 						t.Outcome(detail)
 						return nil
